@@ -1697,6 +1697,8 @@ static int cfg_parse_internal(cfg_t *cfg, int level, int force_state, cfg_opt_t 
 	return STATE_EOF;
 
 error:
+	/* arguments collected for a function call that never happened */
+	cfg_free_value(&funcopt);
 	if (opttitle)
 		free(opttitle);
 	if (comment)
